@@ -139,7 +139,7 @@ theorem struct_law (cfg : Cfg) (sem : Sem) (env : Env) (S : Schema)
     have hany : (S.fields.any fun f => f.other) = S.hasOther := rfl
     let oth' : Dict := if S.hasOther then writeBase S other else []
     refine ⟨.struct vs' oth', ?_, ?_⟩
-    · simp only [readStruct, asDict, chase_nonref env env.depth (p := .dict D) rfl]
+    · simp only [readStruct, readStructD, asDict, chase_nonref env env.depth (p := .dict D) rfl]
       cases ht : S.typeName with
       | none =>
         simp only [expectAll_ok D S.checks hchecks, hrdF, hany]
